@@ -141,10 +141,16 @@ def run_syscall_shard(spec):
             try:
                 with open(slog, errors="replace") as f:
                     lines = f.readlines()
-                for ln in reversed(lines):
+                unfinished = {}
+                for ln in lines:
+                    pid = ln.split(None, 1)[0] if ln.strip() else ""
+                    if "<unfinished" in ln:
+                        unfinished[pid] = ln.strip()
                     if "= ?" in ln and "+++" not in ln:
                         last = ln.strip()
-                        break
+                        if "resumed>" in ln and pid in unfinished:
+                            # "<... write resumed>) = ?": the arguments are on the thread's "unfinished" line
+                            last = unfinished[pid].replace(" <unfinished ...>", "") + " = ? (killed)"
                 if not last:
                     for ln in reversed(lines):
                         if "<unfinished" in ln:
@@ -292,6 +298,13 @@ def replay_specs(rp):
 
 
 def classify(w):
+    kinds = set(w.get("all") or [])
+    infl = (w.get("inflight") or {}).get("kind")
+    if w.get("lane") and w.get("killed_at") == "mh_sequences" and kinds <= {"acknowledged-flags-lost"}:
+        # killed between the truncation of .mh_sequences and its rewrite (or between two writes of it)
+        return "C11-kill-inside-mh-sequences-rewrite-loses-flags"
+    if infl == "rename_inbox" and kinds <= {"acknowledged-flags-lost"} and not w.get("deliver_while_down"):
+        return "C11-kill-inside-rename-inbox-loses-flags-of-moved-messages"
     if (w.get("kind") == "revealed-uid-denotes-other-message" and w.get("all") and set(w["all"]) == {"revealed-uid-denotes-other-message"} and w.get("deliver_while_down")
             and "now lateDelivery" in (w.get("detail") or "") and (w.get("inflight") or {}).get("kind") in ("expunge", "move", "rename_inbox", "delete", "close")):
         return "C11-key-reuse-while-down-after-interrupted-removal"
